@@ -1,7 +1,7 @@
 """C06 -- a stale or never-built index is never silently served."""
 import paths
 from facts import strip, show, walk
-from rules import (db_ops, cursor_ops, key_info, same, full_kind_range, strip_all, is_public, owner_path, cursor_root_call,
+from rules import (db_ops, cursor_ops, key_info, same, full_kind_range, strip_all, is_public, owner_path, cursor_root_call, heed_db_call,
                    loop_every_iteration, sp)
 
 EXPL = ("Decided on the MIR control-flow graphs: (R-MARK) in every public Writer method, from the success continuation "
@@ -148,53 +148,72 @@ def r_open(ctx):
                 errs.setdefault(v, []).append(b)
     ctx.check(len(set(ERRS) & set(errs)) == 3, rule, 'open/distinct-errors', f.loc(),
               'three distinct error variants ' + ', '.join(ERRS), 'Reader::open no longer returns the three distinct errors %s (found %s)' % (ERRS, sorted(errs)))
-    for v in ERRS:
-        for eb in errs.get(v, []):
-            # the error block must be reached by the right observation with the right polarity,
-            # and no path may reach Ok(Reader) without passing that decision
-            cs = paths.controlling_switches(f, eb)
-            conds = []
-            for s in cs:
-                for x in f.succ(s):
-                    if eb in f.reachable(x) and not any(o in f.reachable(x) for o in okb):
-                        conds.append((s, x, paths.edge_cond(f, s, x)))
-            key = 'open/gate/' + v
-            good = False
-            why = 'no controlling decision found'
-            for s, x, e in conds:
-                if e is None:
-                    continue
-                if v == 'MissingMetadata' and e[0] == 'disc':
-                    g = _calls_in(e[1], 'heed::Database::<KC, DC, C, CDUP>::get')
-                    okor = _calls_in(e[1], 'Option::<T>::ok_or')
-                    listed = [int(vv) for vv, tt in paths.switch_at(f, s)['targets']]
-                    none_edge = (0 in e[2]) or (e[3] and 0 not in listed and 1 in listed)   # `None` arm, or the `else` of a let-else
-                    if g and (key_info(g[0][2][2]) or (None,))[0] == 'metadata' and ((none_edge and not okor) or (okor and 1 in e[2])):
-                        # `match get(..)? { None => Err(..) }` (None arm) or `get(..)?.ok_or(Err(..))?` (Break arm of the `?`)
-                        good = all(f.dominates(s, o) for o in okb)
-                        why = 'absence of get(Key::metadata(index))'
-                elif v == 'UnmatchingDistance' and e[0] == 'bool':
-                    names = [t for t in walk(e[1]) if t[0] == 'call' and t[1].endswith('Distance::name')]
-                    meta = [t for t in walk(e[1]) if t[0] == 'field' and t[2] == 'distance']
-                    cmpk = strip(e[1])
-                    isne = cmpk[0] == 'call' and cmpk[1].endswith('::ne') or (cmpk[0] == 'binop' and cmpk[1] == 'Ne')
-                    iseq = cmpk[0] == 'call' and cmpk[1].endswith('::eq') or (cmpk[0] == 'binop' and cmpk[1] == 'Eq')
-                    if names and meta and ((isne and e[2]) or (iseq and not e[2])):
-                        good = all(f.dominates(s, o) for o in okb)
-                        why = 'D::name() != metadata.distance'
-                elif v == 'NeedBuild' and e[0] == 'bool':
-                    c0 = strip(e[1])
-                    pol = None
-                    if c0[0] == 'call' and c0[1].endswith('::is_some'):
-                        pol = e[2]
-                    elif c0[0] == 'call' and c0[1].endswith('::is_none'):
-                        pol = not e[2]
-                    if pol and updated_scan(e[1]):
-                        good = all(f.dominates(s, o) for o in okb)
-                        why = 'updated-mark scan non-empty'
-            ctx.check(good, rule, key, 'src/reader.rs:%d' % paths.block_line(f, eb),
-                      'gate %s: %s, decision dominates Ok(Reader)' % (v, why),
-                      'Reader::open: the %s gate is missing, has the wrong polarity/observation, or can be bypassed on the way to Ok(Reader) (%s)' % (v, why))
+    # truth table of the three gates, by finite-domain evaluation (sa/enumeval.py) of the function under every combination
+    # of the three observations: M = metadata of the index present, N = stored metric name equals D::name(),
+    # U = the updated-mark scan yields an entry.  Independent of how the gates are spelled (match / let-else / ok_or / helpers).
+    import enumeval
+    err_adt = F.adts.get('error::Error')
+    err_name = {int(v['discr']): v['name'] for v in err_adt['variants']} if err_adt else {}
+
+    def hook_for(M, N, U):
+        def hook(ev, fn, t, b):
+            callee = t.get('callee') or ''
+            c = fn.call_at(b)
+            if c is None:
+                return None
+            h = heed_db_call(c)
+            if h and h[0] == 'get' and h[2] is not None:
+                ki = key_info(c.arg_term(h[2]))
+                if ki and ki[0] == 'metadata':
+                    return {(): frozenset([0]), ('@Ok', '0'): frozenset([1 if M else 0])}
+            if callee.endswith('Iterator::next') and c.args and updated_scan(('call', callee, [c.arg_term(0)], b)):
+                return {(): frozenset([1 if U else 0])}
+            if callee.startswith('heed::Database') and not callee.endswith(('::remap_types', '::remap_data_type', '::remap_key_type')):
+                # database reads are assumed not to fail here (I/O errors are propagated: C10)
+                return {(): frozenset([0])}
+            if callee.endswith(('PartialEq::eq', 'PartialEq::ne')) and len(c.args) == 2:
+                both = list(walk(c.arg_term(0))) + list(walk(c.arg_term(1)))
+                if any(x[0] == 'call' and x[1].endswith('Distance::name') for x in both) and any(x[0] == 'field' and x[2] == 'distance' for x in both):
+                    eq = callee.endswith('::eq')
+                    return {(): frozenset([int(N == eq)])}
+            return None
+        return hook
+
+    def outcomes(M, N, U):
+        enumeval.reset()
+        ev = enumeval.Eval(F, f, call_hook=hook_for(M, N, U)).run()
+        out = set()
+        for rb, tree in ev.ret_trees.items():
+            v = tree.get(())
+            if v is None:
+                out.add('?')
+                continue
+            for x in v:
+                if x == 0:
+                    out.add('Ok')
+                else:
+                    ev_ = tree.get(('@Err', '0'))
+                    out |= {'Err:' + str(err_name.get(y, y)) for y in ev_} if ev_ else {'Err:?'}
+        return out
+    table = {}
+    for M in (False, True):
+        for N in (False, True):
+            for U in (False, True):
+                table[(M, N, U)] = outcomes(M, N, U)
+
+    def expected(M, N, U):
+        if not M:
+            return {'Err:MissingMetadata'}
+        if not N:
+            return {'Err:UnmatchingDistance'}
+        if U:
+            return {'Err:NeedBuild'}
+        return {'Ok'}
+    for (M, N, U), got in sorted(table.items()):
+        want = expected(M, N, U)
+        ctx.check(got == want, rule, 'open/table/M%d-N%d-U%d' % (M, N, U), f.loc(), '%s' % sorted(want),
+                  'Reader::open with metadata %s, metric name %s, pending updates %s ends in %s; it must end in %s (a stale, foreign-metric or never-built index would be served, or a good one refused)' % (
+                      'present' if M else 'absent', 'equal' if N else 'different', 'present' if U else 'absent', sorted(got), sorted(want)))
 
 
 def _calls_in(t, needle):
